@@ -700,9 +700,21 @@ struct Fail {
 	detail: Value,
 }
 
-const STRESS_LEN: u64 = 1_048_576 + 123;
+const STRESS_LEN: u64 = 5 * 1_048_576 + 123;
+const MIB: u64 = 1_048_576;
 
 fn gen_req(rng: &mut Rng, t: usize, threads: usize, mode: &str) -> (u64, u64) {
+	if mode == "large" {
+		// reads around and above 1 MiB (a size at which an implementation may switch to another path)
+		let n = match rng.below(8) {
+			0 => MIB - 1,
+			1 => MIB,
+			2 => MIB + 1,
+			3 => rng.range(1, 64),
+			_ => rng.range(MIB, 3 * MIB),
+		};
+		return (rng.below(STRESS_LEN - n + 1), n);
+	}
 	let n = match rng.below(100) {
 		0 => rng.range(1, 200_000),
 		1..=9 => rng.range(65, 8192),
@@ -1254,12 +1266,21 @@ fn stress_env(args: &Args, out: &mut Out, targets: &[&str]) -> StressEnv {
 	}
 	let mut containers = HashMap::new();
 	let rt = tokio::runtime::Builder::new_current_thread().enable_all().build().unwrap();
-	for ext in ["versatiles", "pmtiles", "tar"] {
+	for ext in ["versatiles", "pmtiles", "tar", "mbtiles", "dir"] {
 		if !targets.contains(&ext) {
 			continue;
 		}
-		let path = args.out.join(format!("c13_stress.{ext}"));
+		let path = if ext == "dir" { args.out.join("c13_stress_dir") } else { args.out.join(format!("c13_stress.{ext}")) };
+		if ext == "dir" {
+			let _ = std::fs::remove_dir_all(&path);
+			std::fs::create_dir_all(&path).unwrap();
+		} else {
+			let _ = std::fs::remove_file(&path);
+		}
 		let mut src = stress_source();
+		if ext == "mbtiles" {
+			src.parameters.tile_format = TileFormat::PNG; // mbtiles stores uncompressed png/jpg/webp or gzipped pbf only
+		}
 		let coords = src.coords();
 		let r = rt.block_on(async {
 			write_to_filename(&mut src, path.to_str().unwrap()).await?;
@@ -1371,7 +1392,18 @@ fn stress_env(args: &Args, out: &mut Out, targets: &[&str]) -> StressEnv {
 }
 
 fn run_stress(out: &mut Out, env: &StressEnv, cfg: &StressCfg) {
-	let (total, fails, sample) = if cfg.target == "file" {
+	let (total, fails, sample) = if cfg.target == "file" && cfg.mode == "lowfd" {
+		// descriptors are scarce: a lone read_range needs no new descriptor, so every concurrent one must succeed too
+		let max_fd = std::fs::read_dir("/proc/self/fd").map(|d| d.filter_map(|e| e.ok()?.file_name().to_str()?.parse::<u64>().ok()).max().unwrap_or(64)).unwrap_or(64);
+		let mut old = libc::rlimit { rlim_cur: 0, rlim_max: 0 };
+		unsafe { libc::getrlimit(libc::RLIMIT_NOFILE, &mut old) };
+		let low = libc::rlimit { rlim_cur: (max_fd + 8).min(old.rlim_max), rlim_max: old.rlim_max };
+		unsafe { libc::setrlimit(libc::RLIMIT_NOFILE, &low) };
+		let r = stress_file(cfg, &env.file_path, &env.file_data);
+		unsafe { libc::setrlimit(libc::RLIMIT_NOFILE, &old) };
+		out.extra.insert("low_descriptor_phase".into(), json!({"soft_limit": low.rlim_cur, "highest_descriptor_in_use": max_fd, "threads": cfg.threads}));
+		r
+	} else if cfg.target == "file" {
 		stress_file(cfg, &env.file_path, &env.file_data)
 	} else if let Some(t) = env.rounds.get(&cfg.target) {
 		stress_rounds(cfg, t)
@@ -1408,7 +1440,7 @@ pub fn run(args: &Args) {
 	}
 	quiet_panics();
 	let mut out = Out::new(&args.out);
-	out.rule = "(1) `C13 iso`: read_range calls of the real DataReaderFile traced with strace -ff from 4 threads (ranges inside the file, empty, and beyond EOF); the observed per-call syscall program is normalised and judged by the Lean model (isolated? equal to the modelled program? bytes it returns alone) – non-trivial = the call issues at least one syscall. (2) `C13 sched`: 1–4 random well-formed syscall programs (dup/open/lseek/read/pread/close on shared, aliased and own descriptors, plus the two read_range variants) and a random schedule, executed step by step with real syscalls and by the model – non-trivial = at least two non-empty programs whose steps alternate at least twice. (3) stress, oracle only: one reader shared by 2–16 OS threads / 16–64 tasks on a 16-worker tokio runtime, random byte ranges (disjoint regions per thread or overlapping; 1 B – 200 KB; position-dependent file bytes) resp. random tile coordinates (present and absent) on versatiles/pmtiles/tar files written by the real writers, and on PMTiles files WITH leaf directories (16900 tiles through the real writer; independently encoded files with 2 and 3 directory levels) where each caller mostly stays in one leaf and different callers use leaves far apart; rounds on FRESHLY opened versatiles readers (cold tile-index cache) in which the callers mix bbox streams spanning 1–16 blocks with lookups (each stream must equal the stream run alone), and lookups on a container with a damaged tile index (each verdict bytes/none/err must equal the verdict of a fresh reader); every result is compared with the sequential result; distinct = by (target, executor, threads, request) over the first 200 requests of every thread".into();
+	out.rule = "(1) `C13 iso`: read_range calls of the real DataReaderFile traced with strace -ff from 4 threads (ranges inside the file, empty, and beyond EOF); the observed per-call syscall program is normalised and judged by the Lean model (isolated? equal to the modelled program? bytes it returns alone) – non-trivial = the call issues at least one syscall. (2) `C13 sched`: 1–4 random well-formed syscall programs (dup/open/lseek/read/pread/close on shared, aliased and own descriptors, plus the two read_range variants) and a random schedule, executed step by step with real syscalls and by the model – non-trivial = at least two non-empty programs whose steps alternate at least twice. (3) stress, oracle only: one reader shared by 2–16 OS threads / 16–64 tasks on a 16-worker tokio runtime, random byte ranges (disjoint regions per thread or overlapping; 0 B – 200 KB, plus a phase of reads of 1 MiB−1 / 1 MiB / 1 MiB+1 / 1–3 MiB, 64 OS threads, and a phase under RLIMIT_NOFILE lowered to the descriptors in use + 8; position-dependent file bytes) resp. random tile coordinates (present and absent) on versatiles/pmtiles/tar files written by the real writers, and on PMTiles files WITH leaf directories (16900 tiles through the real writer; independently encoded files with 2 and 3 directory levels) where each caller mostly stays in one leaf and different callers use leaves far apart; rounds on FRESHLY opened versatiles readers (cold tile-index cache) in which the callers mix bbox streams spanning 1–16 blocks with lookups (each stream must equal the stream run alone), and lookups on a container with a damaged tile index (each verdict bytes/none/err must equal the verdict of a fresh reader); every result is compared with the sequential result; distinct = by (target, executor, threads, request) over the first 200 requests of every thread".into();
 	if let Some(p) = &args.replay {
 		let lines: Vec<String> = std::fs::read_to_string(p).unwrap().lines().map(|s| s.to_string()).collect();
 		let targets: Vec<&str> = lines.iter().filter(|l| l.starts_with("C13 stress ")).filter_map(|l| l.split(' ').nth(2)).collect();
@@ -1441,7 +1473,7 @@ pub fn run(args: &Args) {
 	phases.push(("strace".into(), t0.elapsed().as_secs_f64()));
 	kernel_model_cases(args, &mut out, &mut rng);
 	phases.push(("kernel-model".into(), t0.elapsed().as_secs_f64()));
-	let env = stress_env(args, &mut out, &["file", "versatiles", "pmtiles", "tar", "pmtiles-leaves", "pmtiles-indep2", "pmtiles-indep3", "versatiles-blocks", "versatiles-damaged"]);
+	let env = stress_env(args, &mut out, &["file", "versatiles", "pmtiles", "tar", "mbtiles", "dir", "pmtiles-leaves", "pmtiles-indep2", "pmtiles-indep3", "versatiles-blocks", "versatiles-damaged"]);
 	phases.push(("setup".into(), t0.elapsed().as_secs_f64()));
 	let file_calls = args.n(300_000, 6_000_000); // per configuration, split over the threads
 	for (exec, threads) in [("threads", 2usize), ("threads", 4), ("threads", 8), ("threads", 16), ("tokio", 16), ("tokio", 64)] {
@@ -1450,9 +1482,14 @@ pub fn run(args: &Args) {
 			run_stress(&mut out, &env, &cfg);
 		}
 	}
+	// reads of 1 MiB and more from many callers; callers ≫ cores; scarce descriptors
+	for (exec, threads, calls, mode) in [("threads", 16usize, 25usize, "large"), ("tokio", 32, 12, "large"), ("threads", 64, 2000, "overlap"), ("threads", 64, 1500, "lowfd")] {
+		let cfg = StressCfg { target: "file".into(), exec: exec.into(), threads, calls, mode: mode.into(), seed: rng.next() % 1_000_000 };
+		run_stress(&mut out, &env, &cfg);
+	}
 	phases.push(("file-stress".into(), t0.elapsed().as_secs_f64()));
 	let tile_calls = args.n(64_000, 960_000);
-	for target in ["versatiles", "pmtiles", "tar"] {
+	for target in ["versatiles", "pmtiles", "tar", "mbtiles", "dir"] {
 		for (exec, threads) in [("threads", 2usize), ("threads", 16), ("tokio", 16), ("tokio", 48)] {
 			let cfg = StressCfg { target: target.into(), exec: exec.into(), threads, calls: tile_calls / threads, mode: "overlap".into(), seed: rng.next() % 1_000_000 };
 			run_stress(&mut out, &env, &cfg);
@@ -1478,6 +1515,7 @@ pub fn run(args: &Args) {
 	}
 	phases.push(("rounds".into(), t0.elapsed().as_secs_f64()));
 	out.extra.insert("phase_seconds_cumulative".into(), json!(phases));
+	out.notes.push("checklist: (1) thresholds – ranges of 0 bytes, at / across the end of the file, reads of 1 MiB−1 / 1 MiB / 1 MiB+1 / up to 3 MiB, 16384-entry PMTiles files (leaf directories), 256-block borders in the multi-block versatiles file; (2) faults after open – containers with a damaged tile index (every verdict = a fresh reader's), ranges behind the end of the file in the strace tie; files replaced while open are outside the statement (the file is assumed unchanged); (3) payloads are opaque to the readers' concurrency behaviour: tiny (14 B) to 200 KB ranges and ≥ 1 MiB reads; (4) no options; (5) warm caches (long-lived shared readers) and cold caches (fresh reader per round), the same reader object reused across all phases; (6) 2–64 OS threads (≫ cores), 16–64 tasks on a 16-worker runtime, lookups and several multi-block streams on one reader at once, RLIMIT_NOFILE lowered to the descriptors in use + 8; (7) n.a.; (8) zoom 0–12, absent coordinates; (9) PMTiles files from the independent encoder with 2 and 3 directory levels; (10) concurrent result = sequential / fresh-reader result, byte for byte, for read_range, get_tile_data (incl. None / Err) and bbox streams; readers on real files on disk for versatiles, pmtiles, tar, mbtiles and directory".into());
 	out.notes.push("level: proof about the model (every interleaving of syscall programs); the Linux kernel, libc, the OS scheduler and tokio are assumptions – a theorem cannot exhibit a race in the real OS, the stress runs only sample real schedules".into());
 	out.finish();
 }
